@@ -498,7 +498,7 @@ func runC03(c *Ctx) {
 	}
 
 	// ---- R2 ----
-	c03DecisionTable(c)
+	c03DecisionTable(c, "C03-R2")
 
 	// ---- R3 ----
 	if me := c.MustFunc("C03-R3", "internal/discovery.matchEntries"); me != nil {
@@ -642,8 +642,8 @@ func c03Ref(v c03Val) (c03Outcome, bool) {
 	return c03Outcome{}, false // !hB && !hA cannot be constructed (R3)
 }
 
-func c03DecisionTable(c *Ctx) {
-	find := c.MustFunc("C03-R2", "internal/discovery.GitBranchFinder.Find")
+func c03DecisionTable(c *Ctx, R string) {
+	find := c.MustFunc(R, "internal/discovery.GitBranchFinder.Find")
 	if find == nil {
 		return
 	}
@@ -659,12 +659,12 @@ func c03DecisionTable(c *Ctx) {
 		return true
 	})
 	if loop == nil {
-		c.Undecided("C03-R2", "Find:range matchEntries(...)", find.Decl.Pos(), "loop over matchEntries(...) not found")
+		c.Undecided(R, "Find:range matchEntries(...)", find.Decl.Pos(), "loop over matchEntries(...) not found")
 		return
 	}
 	meID, _ := loop.Value.(*ast.Ident)
 	if meID == nil {
-		c.Undecided("C03-R2", "Find:range matchEntries(...)", loop.Pos(), "no value variable")
+		c.Undecided(R, "Find:range matchEntries(...)", loop.Pos(), "no value variable")
 		return
 	}
 	me := info.Defs[meID]
@@ -682,6 +682,34 @@ func c03DecisionTable(c *Ctx) {
 		}
 		return true
 	})
+
+	// the "this file has parse errors" list is per file: declared inside the loop
+	// over the changed files, directly from entriesWithPathErrors(entries of this file)
+	{
+		pmF := parentMap(find.Decl.Body)
+		var outer *ast.RangeStmt
+		for cur := pmF[ast.Node(loop)]; cur != nil; cur = pmF[cur] {
+			if rs, ok := cur.(*ast.RangeStmt); ok {
+				outer = rs
+				break
+			}
+		}
+		ok := failed != nil && outer != nil && failed.Pos() > outer.Body.Pos() && failed.Pos() < outer.Body.End()
+		// no other assignment to it
+		nAssign := 0
+		ast.Inspect(find.Decl.Body, func(n ast.Node) bool {
+			if as, isAs := n.(*ast.AssignStmt); isAs {
+				for _, l := range as.Lhs {
+					if failed != nil && objOf(info, l) == failed {
+						nAssign++
+					}
+				}
+			}
+			return true
+		})
+		c.Check(ok && nAssign == 1, R, "Find:parse-error list of the file under inspection is per file", find.Decl.Pos(), "declared inside the per-file loop, assigned once",
+			"the list of entries with parse errors that the `removed` decision consults is not (only) derived from the file under inspection: a syntax error in one changed file makes rules removed from every file processed after it count as `not removed`, so rule/dependency never sees them")
+	}
 
 	var eval func(e ast.Expr, v c03Val) (bool, string)
 	eval = func(e ast.Expr, v c03Val) (bool, string) {
@@ -818,16 +846,16 @@ func c03DecisionTable(c *Ctx) {
 		key := fmt.Sprintf("valuation hasBefore=%v hasAfter=%v isIdentical=%v wasMoved=%v noParseFailures=%v", v.hB, v.hA, v.ident, v.moved, v.noFail)
 		want, reachable := c03Ref(v)
 		if !reachable {
-			c.Ok("C03-R2", key, loop.Pos(), "unconstructible (R3)")
+			c.Ok(R, key, loop.Pos(), "unconstructible (R3)")
 			continue
 		}
 		var got c03Outcome
 		exec(loop.Body.List, v, &got)
 		if got.undec != "" {
-			c.Undecided("C03-R2", key, loop.Pos(), got.undec)
+			c.Undecided(R, key, loop.Pos(), got.undec)
 			continue
 		}
-		c.Check(got.state == want.state && got.appended == want.appended, "C03-R2", key, loop.Pos(),
+		c.Check(got.state == want.state && got.appended == want.appended, R, key, loop.Pos(),
 			"state="+want.state+" appended="+want.appended,
 			fmt.Sprintf("code yields state=%q appended=%q, reference is state=%q appended=%q", got.state, got.appended, want.state, want.appended))
 	}
